@@ -60,3 +60,13 @@ def check_c17(c):
             "sizes are summed without the uint64 wrap (sum of file sizes < 2^64)",
             "the literal bound 2*log2(N) is void at N = 1 (one table); it is checked for N >= 2",
         ])
+
+
+def check_c01(c):
+    def nontrivial(cmd, args, impl):
+        return impl.startswith("ok:") and len(impl) > 400
+    generic(
+        c, "c01", ["Properties/C17.v"], [],
+        what_tie="Writer/Reader vs Model/Writer.v + Model/Reader.v (byte-exact tables, scans, seeks, RefsFor)",
+        rule="generated tables (see input_distribution); non-trivial = written successfully and > 200 bytes",
+        nontrivial=nontrivial, assumptions=[])
